@@ -52,6 +52,7 @@ type Table struct {
 	NCols        int
 	Rows         []Row
 	Tree         fmtb.TreeOpts
+	RowidAlias   bool     `json:",omitempty"` // column c0 is INTEGER PRIMARY KEY (stored as NULL)
 	WithoutRowid bool     `json:",omitempty"`
 	PKCols       int      `json:",omitempty"`
 	PKDesc       []bool   `json:",omitempty"`
@@ -85,7 +86,11 @@ func idxColSQL(col int, coll string, desc bool) string {
 func (t Table) SQL() string {
 	var cols []string
 	for i := 0; i < t.NCols; i++ {
-		cols = append(cols, colName(i))
+		c := colName(i)
+		if i == 0 && t.RowidAlias {
+			c += " INTEGER PRIMARY KEY"
+		}
+		cols = append(cols, c)
 	}
 	s := "CREATE TABLE " + t.Name + " (" + strings.Join(cols, ", ")
 	if t.WithoutRowid {
@@ -226,12 +231,9 @@ func Build(spec *Image) (res *Built, err error) {
 				bi := &BuiltIndex{Spec: ix, Key: keyCols(ix.Coll, ix.Desc, len(ix.Cols))}
 				for ri, r := range t.Rows {
 					var vs []val.V
+					logical := t.Logical(r)
 					for _, c := range ix.Cols {
-						if c < len(r.Fields) {
-							vs = append(vs, r.Fields[c].V)
-						} else {
-							vs = append(vs, val.Null())
-						}
+						vs = append(vs, logical[c])
 					}
 					vs = append(vs, val.Int(r.Rowid))
 					bi.Entries = append(bi.Entries, Entry{Values: vs, Row: ri})
@@ -357,6 +359,9 @@ func SQLiteAgrees(o *oracle.Oracle, dir string, built *Built) (string, error) {
 		}
 		for i, r := range bt.Rows {
 			want := append([]val.V{val.Int(r.Rowid)}, pad(r.Values(), t.NCols)...)
+			if t.RowidAlias {
+				want[1] = val.Int(r.Rowid)
+			}
 			if !ValsEqual(want, got[i]) {
 				return fmt.Sprintf("table %s row %d: SQLite %v, builder %v", t.Name, i, got[i], val.Row(want)), nil
 			}
@@ -371,4 +376,24 @@ func pad(vs []val.V, n int) []val.V {
 		out = append(out, val.Null())
 	}
 	return out
+}
+
+// Logical gives the values a select of all columns must return for a row of
+// a rowid table: short rows completed with NULL (no defaults are declared),
+// the rowid alias column holding the rowid.
+func (t *Table) Logical(r Row) []val.V {
+	out := pad(r.Values(), t.NCols)
+	if t.RowidAlias {
+		out[0] = val.Int(r.Rowid)
+	}
+	return out
+}
+
+// ColNames lists the column names.
+func (t *Table) ColNames() []string {
+	var cols []string
+	for i := 0; i < t.NCols; i++ {
+		cols = append(cols, colName(i))
+	}
+	return cols
 }
